@@ -95,6 +95,10 @@ class Bin(Node):
             chk(tdiv(a, b))
             return a - tdiv(a, b) * b
         if op == "<<":
+            # the amount is converted with to_int32() (wrapping) before the range check
+            b &= 0xffffffff
+            if b >= 1 << 31:
+                b -= 1 << 32
             if b < 0 or b >= 64:
                 raise Trap(110)
             v = (a << b) & ((1 << 64) - 1)
@@ -317,7 +321,7 @@ def cases(quick=True):
     out = []
     maxops = 2 if quick else 3
     # leaf values chosen so that every operator has a trapping and a non-trapping instance
-    base_vals = [0, 1, 2, I64_MAX] if quick else [0, 1, 2, 64, -1, I64_MAX, I64_MIN]
+    base_vals = [0, 1, I64_MAX] if quick else [0, 1, 2, 64, -1, I64_MAX, I64_MIN]
     seen = set()
     for n in range(1, maxops + 1):
         for shape in shapes(n):
